@@ -110,6 +110,31 @@ check('C13', TV,
       'SMT (z3) entailment/equivalence obligations over the real outline problems',
       'DESIGN.md 5 (C13)')
 
+check('C06', TV,
+      'Every enumerated formula is rendered by the real TPTP formatter; the text is read back by a strict TFF reader written '
+      'from the TPTP BNF and z3 decides, over ALL interpretations and assignments (unbounded integers), that the text under '
+      'the standard interpretation of the preamble symbols has the truth value of the source formula. Syntax complaints of '
+      'the reader are reported only when the repo\'s tptp4X rejects the text too. The integer-numeral kernel is additionally '
+      'covered for every isize by a Kani harness in the thorough tier.',
+      BASE_NOTE + ' TPTP reader: av/tff.py.', 'SMT (z3) equivalence of source formula vs re-read TPTP text; Kani (CBMC) for the numeral kernel',
+      'DESIGN.md 5 (C06)')
+check('C09', 'other',
+      'Every problem text emitted for a corpus of tasks chosen for their identifier shapes (and samples of the C02/C03 '
+      'corpora) is read by a strict TFF reader and type checker: declarations exactly once and at one type, all uses '
+      'declared and well-typed against declarations and the $int built-ins, variables bound by typed quantifiers, unique '
+      'formula names, one conjecture; tptp4X is the ground truth for syntax.',
+      'Trusted base: av/tff.py (lexer, grammar, type checker written from the TPTP BNF) and the repo\'s tptp4X. No solver query '
+      'decides this property (it is syntactic/type-theoretic): level `other`. Seven open known findings (non-injective name mangling).',
+      'strict TFF reader + type checker per emitted problem, tptp4X cross-check (no satisfiability query: property is syntactic)',
+      'DESIGN.md 5 (C09)')
+check('C12', TV,
+      'z3 decides that each of the 15 preamble axioms is valid under the standard interpretation (unbounded integers, any '
+      'total order of symbols); that every symbol_order axiom of every corpus problem is true for the lexicographic order of '
+      'the original symbol names and that the axioms chain through all declared symbols; that every transition axiom of the '
+      'strong tasks is valid for H subset-of T and that there is one per predicate of either program.',
+      BASE_NOTE + ' TPTP reader: av/tff.py.', 'SMT (z3) validity of the re-read auto-generated axioms under the standard interpretation',
+      'DESIGN.md 5 (C12)')
+
 NOT_APPLICABLE = [
     ('C10', 'thread pool + process spawning + regex over prover output: no symbolic reach for Kani/CBMC (no concurrency/process model) and nothing for an SMT encoding to carry; see DESIGN.md 6'),
     ('C11', 'graph algorithms over HashMap/petgraph/IndexSet on concrete programs: nothing left for a solver to quantify over, and symbolic programs are out of reach (DESIGN.md 1.1, 6)'),
